@@ -325,7 +325,8 @@ def _run_property(pid, tier, seed, args):
         'solver_time_s': round(sum(o['time_ms'] for o in obls) / 1000.0, 2),
         'verus_units': [{'tmpl': m['tmpl'], 'cmd': m['cmd'], 'wall_s': round(m['wall_s'], 2), 'smt_ms': m['smt_ms'],
                          'functions_verified_in_file': m['verified_total'], 'canary_failed_as_expected': m['canary_failed_as_expected'],
-                         'extracted': [{'fn': f['fn'], 'from': '%s:%d' % (f['file'], f['line']), 'body_sha256_16': f['body_sha'], 'rewrites': f['edits']} for f in m['extraction']['functions']]}
+                         'extracted': [{'fn': f['fn'], 'from': '%s:%d' % (f['file'], f['line']), 'body_sha256_16': f['body_sha'], 'rewrites': f['edits']} for f in m['extraction']['functions']],
+                         'extracted_types': [{'type': t['type'], 'from': '%s:%d' % (t['file'], t['line']), 'note': t.get('note', '')} for t in m['extraction'].get('types', [])]}
                         for m in vmetas],
         'kani_units': [{'package': m['package'], 'cmd': m['cmd'], 'wall_s': round(m['wall_s'], 2), 'overlay': m['overlay'], 'verdicts_reused_from_content_addressed_cache': m.get('reused_from_cache', []), 'tree_hash': m.get('tree_hash', '')} for m in kmetas],
         'tools': extra_meta,
